@@ -33,3 +33,16 @@ Example C05_example :
   fst (run_sbs (10, 20) [(HFirst, HFirst); (HFirst, HNone); (HWrapped, HNone); (HNone, HFirst); (HFirst, HWrapped)]) =
   [(Some 10, Some 20); (Some 11, None); (None, None); (None, Some 21); (Some 12, None)].
 Proof. vm_compute. reflexivity. Qed.
+
+(* The path printed in a hunk header (when the hunk-header style includes it): the choice read from
+   the current tree (GenHunkPath.v) prints the new name of the file the hunk belongs to — also for a
+   renamed file — and the old name exactly when the new side is /dev/null (a deleted file). *)
+From DV Require Import Text HunkPath GenHunkPath.
+
+Theorem C05_hunk_header_path_is_new_name : forall old new,
+  text_eqb new dev_null = false -> header_path code_tested code_on_null code_otherwise old new = new.
+Proof. exact path_of_existing_file. Qed.
+
+Theorem C05_hunk_header_path_of_deleted_file : forall old new,
+  text_eqb new dev_null = true -> header_path code_tested code_on_null code_otherwise old new = old.
+Proof. exact path_of_deleted_file. Qed.
